@@ -24,9 +24,9 @@ type Resp struct {
 	Proto    string      `json:"proto,omitempty"`
 	Header   http.Header `json:"header"`
 	Body     string      `json:"body"`
-	Err      string      `json:"err,omitempty"`      // transport-level problem: no/invalid response, truncated body
-	Dropped  bool        `json:"dropped,omitempty"`  // connection closed without a single response byte
-	Panic    string      `json:"panic,omitempty"`    // handler panic (recorder mode)
+	Err      string      `json:"err,omitempty"`       // transport-level problem: no/invalid response, truncated body
+	Dropped  bool        `json:"dropped,omitempty"`   // connection closed without a single response byte
+	Panic    string      `json:"panic,omitempty"`     // handler panic (recorder mode)
 	RawFirst string      `json:"raw_first,omitempty"` // first bytes on the wire when unparsable
 }
 
@@ -180,18 +180,18 @@ func (t *Tunnel) DoPipelined(raws []string) []*Resp {
 // header snapshot at the first write, the WriteHeader code check (net/http panics on an
 // invalid code), Content-Length enforcement and no body for HEAD.
 type Recorder struct {
-	hdr         http.Header
-	snap        http.Header
-	status      int
-	wrote       bool
-	body        bytes.Buffer
-	head        bool
-	cl          int64
-	writeErr    error
-	hijackConn  net.Conn
-	Hijacked    bool
-	FailAfter   int // >=0: client hung up, writes fail after that many body bytes
-	SlowReader  bool
+	hdr        http.Header
+	snap       http.Header
+	status     int
+	wrote      bool
+	body       bytes.Buffer
+	head       bool
+	cl         int64
+	writeErr   error
+	hijackConn net.Conn
+	Hijacked   bool
+	FailAfter  int // >=0: client hung up, writes fail after that many body bytes
+	SlowReader bool
 }
 
 func NewRecorder(method string) *Recorder {
